@@ -438,4 +438,9 @@ def replay_record(i, x, y, z, b):
 
 
 def units(tier):
-    return [PositionSend(), PositionMonotone(), PositionAnyWord(), SectionPos(), BlockRecord()]
+    from . import c08
+    ou = c08.OrderUnit()
+    # which of the two layouts is used is decided by the version-order predicates (switch at 443): their contract - a strict
+    # total order by publication position over every known version - is claimed here too
+    ou.prop, ou.name = 'C04', 'C04.version-order'
+    return [PositionSend(), PositionMonotone(), PositionAnyWord(), SectionPos(), BlockRecord(), ou]
